@@ -159,6 +159,7 @@ struct State {
     char case_desc[1024] = {0};
     std::atomic<uint64_t> current_case{0};
     uint64_t violations_per_key_limit = 5;
+    uint64_t range_to = 0;
     std::map<std::string, uint64_t> per_key;
 };
 
@@ -185,6 +186,13 @@ inline void violation(const std::string& key, const std::string& detail) {
     raw_line(fmt("{\"t\":\"v\",\"case\":%" PRIu64 ",\"key\":\"%s\",\"detail\":\"%s\",\"desc\":\"%s\"}",
                  s.current_case.load(), jesc(key).c_str(), jesc(detail).c_str(), jesc(s.case_desc).c_str()));
 }
+
+// A harness calls hang_detected() after it reported a hang (bounded-progress
+// watchdog fired). After three hangs in one process the remaining cases of the
+// shard are skipped (counted in 'cases_skipped_after_hangs'), so that a tree on
+// which every case hangs does not cost watchdog-time x cases.
+inline std::atomic<int>& hang_counter() { static std::atomic<int> c{0}; return c; }
+inline void hang_detected() { ++hang_counter(); }
 
 inline void count(const std::string& name, uint64_t n = 1) {
     State& s = st();
@@ -278,6 +286,20 @@ inline void dump_stats(bool from_crash) {
     }
 }
 
+// After a hang was reported the process still contains stuck threads that may
+// reference the case's stack: the only safe continuation is to stop this
+// process. The remaining cases of the shard are counted as skipped.
+inline void abort_shard_after_hang(uint64_t remaining_hint = 0) {
+    State& s = st();
+    {
+        std::lock_guard<std::mutex> g{s.mtx};
+        s.counters["shards_stopped_after_hang"] += 1;
+        s.counters["cases_skipped_after_hangs"] += remaining_hint;
+    }
+    dump_stats(false);
+    ::_exit(0);
+}
+
 // ---------------------------------------------------------------- crash attribution
 
 inline void crash_record(const char* why) {
@@ -362,7 +384,9 @@ inline int run_cases(int argc, char** argv, uint64_t default_total, const case_f
     State& s = st();
     uint64_t from = static_cast<uint64_t>(arg_int("from", 0));
     uint64_t to = static_cast<uint64_t>(arg_int("to", static_cast<int64_t>(default_total)));
+    s.range_to = to;
     for (uint64_t i = from; i < to; ++i) {
+        if (hang_counter().load() >= 3) { s.counters["cases_skipped_after_hangs"] += to - i; break; }
         s.current_case = i;
         if (s.progress) { s.progress[0] = i; s.progress[1] = s.progress[1] + 1; }
         s.case_desc[0] = 0;
